@@ -6,6 +6,7 @@
      X <hex>     per statement of split_M: code_text and equation_text (the specification strings of CodeGen.v)
                  and whether the guard of the text-level theorem holds (aligned, no brace outside a match)
                  -> X:<code or ->,<equation or ->,<1|0>;...|<split error or ->
+     B <hex>     the `{equations}` block of the class text build_model_definition generates (CodeGenBlock.v)  -> B:<hex> | N
      L <hex>     lex_items of one statement -> token list (debugging aid) *)
 open Codegen_model
 
@@ -59,6 +60,7 @@ let answer (line : string) : unit =
     let (stmts, err) = split_M (unhex h) in
     let one st = opt_s (code_text st) ^ "," ^ opt_s (equation_text st) ^ "," ^ (if text_guard st then "1" else "0") in
     print_endline ("X:" ^ String.concat ";" (List.map one stmts) ^ "|" ^ (match err with None -> "-" | Some e -> exn_name e))
+  | ["B"; h] -> print_endline (match block_of_script (unhex h) with Some b -> "B:" ^ hex b | None -> "N")
   | ["L"; h] -> print_endline (String.concat " " (List.map tok_s (lex_items LNone (scan_items (unhex h)))))
   | _ -> print_endline "?"
 
